@@ -6,7 +6,8 @@
 # `lake build SCoda.Props.AbsTie2` FAILS (or that generation fails loudly).  On the unedited source it must PASS (checked
 # first and last; the last run also restores the generated files).  /repo and /verif are never written.
 #
-#   usage: tools/test_py2lean_abs2.sh        (ORIG=<repo root> to translate another tree than /repo)
+#   usage: tools/test_py2lean_abs2.sh        (ORIG=<repo root> to translate another tree than /repo; since the repair of D41 the proofs are about the
+#                                             repaired source, so ORIG must contain fix_D41.diff — m18 is "the repair reverted")
 set -u
 HERE="$(cd "$(dirname "$0")/.." && pwd)"
 SCRATCH="${SCRATCH:-/root/work/t2abs/mut_scratch}"
@@ -104,6 +105,10 @@ mutant m16_quantise_lt sequences/absolute_sequence.py \
 mutant m17_qnl_ge sequences/absolute_sequence.py \
   'if possible_correction > 0 and do_not_extend and note_value in valid_durations:' 'if possible_correction >= 0 and do_not_extend and note_value in valid_durations:' \
   "quantise_note_lengths: do_not_extend also forbids the exact length (> 0  ->  >= 0)"
+
+mutant m18_revert_d41_repair sequences/absolute_sequence.py \
+  '(step_sizes = get_default_step_sizes\(\)\n\n(?:[ \t]*#[^\n]*\n)*)[ \t]*self\.normalise_absolute\(\)\n' '\1' \
+  "quantise: the repair of D41 REVERTED (no normalise_absolute() before the walk: the stored order is walked; quantise_eq against quantiseS must break)"
 
 echo "== edits that leave the subset / break a checked fact (generation must fail loudly)"
 mutant m10_alias_container sequences/absolute_sequence.py \
